@@ -43,7 +43,10 @@ RULE = ("tx: packets of 1..70 random / all-ones / stuffing-boundary bytes, tx_da
         "ports of RxClockDataRecovery, RxNRZIDecoder, RxPacketDetect, RxBitstuffRemover, RxShifter, the write ports of "
         "both clock-domain-crossing FIFOs, o_receive_error); stimulus: nominal-rate packets (good / seventh 1) in all "
         "four sampling phases, the same with clock offsets up to +-10% and truncated / non-byte-multiple packets and "
-        "gaps down to 0 bit times, single-cycle glitches incl. SE1, and random line states.  glue: random op_mode / "
+        "gaps down to 0 bit times, single-cycle glitches incl. SE1, and random line states.  rxd: the same stimulus, the "
+        "Lean model with the clock-domain crossing (`FsRxCdc.step phase`: both AsyncFIFOBuffered with Gray pointers, "
+        "synchronizers, memory, output register, and o_pkt_in_progress) against the usb-domain outputs of the real "
+        "RxPipeline usb_io cycle by usb_io cycle, all four usb clock phases.  glue: random op_mode / "
         "tx_valid / term_select / pull-down requests every 12 MHz cycle")
 ASSUMPTIONS = [
     "the UTMI producer keeps tx_valid and the byte stable until tx_ready and drops tx_valid after the last tx_ready "
@@ -398,6 +401,12 @@ def gen_cases(tier, rng):
     for k in range(nr):
         out.append({"kind": "rxc", "seed": rng.u64(), "k": k,
                     "mode": ["nominal", "drift", "nominal", "noise", "nominal", "random"][k % 6],
+                    "big": int(tier == "thorough" and k % 8 == 0)})
+    # the same with the clock-domain crossing: usb-domain outputs of RxPipeline, all four usb clock phases
+    nd = {"quick": 8, "widen": 24}.get(tier, 120)
+    for k in range(nd):
+        out.append({"kind": "rxd", "seed": rng.u64(), "k": k, "phase": k % 4,
+                    "mode": ["nominal", "drift", "nominal", "noise", "random", "nominal", "nominal", "drift"][k % 8],
                     "big": int(tier == "thorough" and k % 8 == 0)})
     return out
 
@@ -891,9 +900,12 @@ def run_rxcycle(desc):
             nr.o_valid, nr.o_data, nr.o_se0, det.o_pkt_start, det.o_pkt_active, det.o_pkt_end,
             bs.o_data, bs.o_stall, bs.o_error, sh.o_put, sh.o_data, pf.w_en, pf.w_data, ff.w_en, ff.w_data,
             dut.o_receive_error]
+    phase = desc.get("phase", desc.get("k", 0) % 4)
+    if desc["kind"] == "rxd":
+        return _run_rxd(desc, rows, metas, dut, s, pf, ff, phase, mode)
     P = 1e-6
     s.add_clock(P, domain="usb_io")
-    s.add_clock(4 * P, phase=P / 2 + desc.get("k", 0) % 4 * P, domain="usb")
+    s.add_clock(4 * P, phase=P / 2 + phase * P, domain="usb")
     outputs = []
     ovf = []
 
@@ -981,6 +993,75 @@ def run_rxcycle(desc):
                  "sh.o_data", "payload.w_en", "payload.w_data", "flags.w_en", "flags.w_data", "o_receive_error"])
 
 
+def _run_rxd(desc, rows, metas, dut, s, pf, ff, phase, mode):
+    """kind "rxd": the usb-domain outputs of the real RxPipeline (behind its two AsyncFIFOBuffered) compared usb_io cycle
+    by usb_io cycle with the Lean model `FsRxCdc.step phase` (sub-model 6), for the four phases of the usb clock.  The
+    monitor states the property on the usb-domain outputs, sampled at the usb edges as the UTMI side would."""
+    outs = [dut.o_data_strobe, dut.o_data_payload, dut.o_pkt_start, dut.o_pkt_end, dut.o_pkt_in_progress,
+            dut.o_receive_error, pf.w_rdy, ff.w_rdy]
+    P = 1e-6
+    s.add_clock(P, domain="usb_io")
+    s.add_clock(4 * P, phase=P / 2 + phase * P, domain="usb")
+    outputs = []
+
+    async def tb(ctx):
+        for k, r in enumerate(rows):
+            ctx.set(dut.i_usbp, r[0])
+            ctx.set(dut.i_usbn, r[1])
+            outputs.append([ctx.get(x) for x in outs])
+            await ctx.tick("usb_io")
+
+    s.add_testbench(tb)
+    s.run()
+    fails = []
+    tags = {"rxd", "rxd:" + mode, "rxd:phase=%d" % phase}
+    # what the 12 MHz side sees: one sample per usb cycle (at the usb edge)
+    usb = [(k, o) for k, o in enumerate(outputs) if k % 4 == phase]
+    if any(o[0] for _, o in usb):
+        tags.add("rxd:strobe")
+    if any(not o[6] or not o[7] for o in outputs):
+        tags.add("rxd:fifo-full")
+    if metas is not None:
+        pk, cur = [], None
+        for k, o in usb:
+            strobe, data, st, en, act, err = o[:6]
+            if st:
+                cur = {"k": k, "bytes": [], "end": None, "err": False}
+                pk.append(cur)
+            if strobe:
+                if not act:
+                    fails.append({"cycle": k, "sig": "rxd-strobe-outside-active", "what": "o_data_strobe without "
+                                  "o_pkt_in_progress (usb_io cycle %d), byte %#x" % (k, data)})
+                elif cur is not None:
+                    cur["bytes"].append(data)
+            if cur is not None and cur["end"] is None and act and err:
+                cur["err"] = True
+            if en and cur is not None:
+                cur["end"] = k
+        if len(pk) != len(metas):
+            fails.append({"cycle": 0, "sig": "rxd-packet-count", "what": "%d o_pkt_start pulses for %d packets on the line"
+                          % (len(pk), len(metas))})
+        for (kind, p), got in zip(metas, pk):
+            if got["end"] is None:
+                fails.append({"cycle": got["k"], "sig": "rxd-no-end", "what": "o_pkt_start without o_pkt_end"})
+            if kind == "good":
+                tags.add("rxd:good-packet")
+                if got["bytes"] != p:
+                    fails.append({"cycle": got["k"], "sig": "rxd-bytes", "what": "bytes delivered with o_data_strobe "
+                                  "and o_pkt_in_progress %s != packet %s (usb phase %d)" % (got["bytes"], p, phase)})
+                if got["err"]:
+                    fails.append({"cycle": got["k"], "sig": "rxd-error-on-good-packet", "what":
+                                  "o_receive_error while o_pkt_in_progress for a correctly encoded packet %s" % p})
+            elif kind == "violation":
+                tags.add("rxd:violation")
+                if not got["err"]:
+                    fails.append({"cycle": got["k"], "sig": "rxd-stuff-error-not-reported", "what":
+                                  "seven consecutive 1s: o_receive_error not seen at a usb edge while o_pkt_in_progress"})
+    return Case([6, phase], rows, outputs, fails[:5], sorted(tags), dict(desc), ["i_usbp", "i_usbn"],
+                ["o_data_strobe", "o_data_payload", "o_pkt_start", "o_pkt_end", "o_pkt_in_progress", "o_receive_error",
+                 "payload.w_rdy", "flags.w_rdy"])
+
+
 def run_case(desc):
     return {"tx": run_tx, "rx": run_rx, "glue": run_glue, "txc": run_txcycle, "txp": run_txcycle,
-            "rxc": run_rxcycle}[desc["kind"]](desc)
+            "rxc": run_rxcycle, "rxd": run_rxcycle}[desc["kind"]](desc)
